@@ -112,9 +112,16 @@ fn scmp_bytes(h: &RHeader, ty: u8, code: u8, body: &[u8], bad: bool) -> Vec<u8> 
     m.extend_from_slice(body);
     let mut c = rw::compute_checksum(h, rw::SCMP_PROTO, &m, 2);
     if bad {
-        c = c.wrapping_add(1);
-        if c == 0xffff || c == 0 {
-            c = 0x1234;
+        // three kinds of wrong value: off by one, the all-zero field ("no checksum"), all ones
+        let good = c;
+        c = match body.len() % 3 {
+            0 => good.wrapping_add(1),
+            1 => 0x0000,
+            _ => 0xffff,
+        };
+        // 0x0000 and 0xffff are the same number in ones' complement arithmetic
+        if c == good || (c == 0 && good == 0xffff) || (c == 0xffff && good == 0) {
+            c = good ^ 0x0100;
         }
     }
     m[2..4].copy_from_slice(&c.to_be_bytes());
